@@ -11,7 +11,7 @@ import (
 
 func (e *Engine) newUnit(fn *ssa.Function, name string) *Unit {
 	return &Unit{eng: e, u: e.u, fn: fn, name: name, heapSort: map[string]Sort{}, ord: map[string]int{}, notes: map[string]bool{},
-		declared: map[string]bool{}, heapType: map[string]types.Type{}, defMemo: map[string]string{}, ifacePay: map[string]Term{}}
+		declared: map[string]bool{}, heapType: map[string]types.Type{}, epochJoin: map[int][]epochArm{}, defMemo: map[string]string{}, ifacePay: map[string]Term{}}
 }
 
 func unitName(fn *ssa.Function) string {
@@ -70,6 +70,7 @@ func (e *Engine) VerifyFunction(fn *ssa.Function) (un *Unit, err error) {
 	f.body(st)
 	for i := range f.rets {
 		r := &f.rets[i]
+		un.smoke(&r.st, fmt.Sprintf("ret%d", i+1))
 		if ct != nil {
 			penv := f.postEnv(&f.entry)
 			outs := r.vals
@@ -99,7 +100,6 @@ func (e *Engine) VerifyFunction(fn *ssa.Function) (un *Unit, err error) {
 				}
 			}
 		}
-		un.smoke(&r.st, fmt.Sprintf("ret%d", i+1))
 	}
 	if len(f.rets) == 0 {
 		un.note("function " + un.name + " has no normal return")
@@ -131,8 +131,23 @@ func (f *Frame) frameObligations(ct *Contract, env map[string]Val, r *retInfo, r
 	allowed := map[string][]Term{}
 	whole := map[string]bool{}
 	for _, m := range ct.Modifies {
+		if strings.TrimSpace(m) == "*" {
+			for k := range r.st.H {
+				if !strings.HasPrefix(k, "G_") {
+					whole[k] = true
+				}
+			}
+			continue
+		}
 		for _, me := range f.resolveMod(m, env, &f.entry) {
-			if me.ref.S == "" {
+			if me.rows {
+				if _, ok := allowed[me.heap]; !ok {
+					allowed[me.heap] = []Term{}
+				}
+				if me.ref.S != "" {
+					allowed[me.heap] = append(allowed[me.heap], me.ref)
+				}
+			} else if me.ref.S == "" {
 				whole[me.heap] = true
 			} else {
 				allowed[me.heap] = append(allowed[me.heap], me.ref)
